@@ -6,13 +6,13 @@ ID = "C28"
 QUICK_N = 1500
 THOROUGH_N = 24000
 SHARD = 130
-RULE = ("65% sessions with a real WebsocketLayer between two in-memory wsproto peers: 1-7 messages (text 60%/binary) in both "
+RULE = ("10% upgrade hand-over cases (oracle only, not modelled): the real HttpLayer (transparent/regular) is driven through the HTTP/1 upgrade with server frames coalesced with the 101, client frames sent before the 101 is relayed (glued to the request head or not), payloads made of CR/LF tokens, segment cuts placed right behind CR/LF bytes (also mid-frame), zero or random client masks; 55% sessions with a real WebsocketLayer between two in-memory wsproto peers: 1-7 messages (text 60%/binary) in both "
         "directions built from a UTF-8 token dictionary (1-4 byte characters, emoji, combining marks), cut into 1-5 frames at "
         "arbitrary byte offsets (also inside a character), frames segmented into DataReceived pieces or coalesced, pings/pongs "
         "between fragments, injected messages (also while a fragmented message is in progress), close frames with code/reason, "
         "EOF, with/without permessage-deflate, FRAGMENT_SIZE monkeypatched to 1..16 (4000 in ~1% of cases with >4000-byte "
         "contents), addon actions keep / same-length edit (rotate) / longer / shorter / drop, hook replies delayed by 0-3 events; "
-        "15% adversarial frame streams (invalid UTF-8, unexpected continuation, bad close payloads, reserved opcodes); "
+        "13% adversarial frame streams (invalid UTF-8, unexpected continuation, bad close payloads, reserved opcodes); "
         "20% direct Fragmentizer calls (length lists x contents x is_text). Non-trivial = at least one message was re-fragmented "
         "or fragmented (>= 2 frames out) or a direct Fragmentizer call with >= 2 fragments; distinct by canonical JSON.")
 TRUSTED = ["Coq 8.16.1 kernel; vm_compute for case evaluation",
@@ -26,7 +26,8 @@ TRUSTED = ["Coq 8.16.1 kernel; vm_compute for case evaluation",
            "hand model of CPython bytes.decode('utf-8', errors='replace') (maximal-subpart replacement, from Objects/stringlib/codecs.h) "
            "and str.encode('utf-8') in Model/WsUtf8.v, tied by correspondence (direct Fragmentizer cases over arbitrary bytes)",
            "harness/props/C28.py (generator, instrumentation of WebsocketConnection.events/send2 and Fragmentizer, comparison glue Corr/C28.v)"]
-ASSUMPTIONS = ["the addon is a deterministic function of the message list; it changes only content and dropped (not type/from_client)",
+ASSUMPTIONS = ["the HTTP/1 -> WebSocket upgrade hand-over (Http1Connection.make_pipe buffer flush, HttpLayer child-layer switch) is checked by the oracle only (cases k=hand have no Coq term); the theorems cover WebsocketLayer.relay_messages and Fragmentizer",
+               "the addon is a deterministic function of the message list; it changes only content and dropped (not type/from_client)",
                "the model starts after WebsocketLayer.start (extension negotiation and the start hook are exercised but not modelled)",
                "timestamps, log text and SendData byte encodings (masking, deflate) are not compared; SendData is compared as the wsproto event passed to send2",
                "str values contain no lone surrogates (they come from UTF-8 decoders)"]
@@ -106,6 +107,8 @@ def run_direct(case):
 def run_impl(case):
     if case["k"] == "frag":
         return run_direct(case)
+    if case["k"] == "hand":
+        return run_handover(case)
     old_fs = wsl.Fragmentizer.FRAGMENT_SIZE
     old_cls = wsl.Fragmentizer
     fraglog = []
@@ -498,7 +501,9 @@ def gen(rng, n, tier):
     out = []
     for _ in range(n):
         r = rng.random()
-        if r < 0.65:
+        if r < 0.10:
+            out.append(gen_handover(rng, tier))
+        elif r < 0.65:
             out.append(gen_session(rng, tier))
         elif r < 0.80:
             out.append(gen_adversarial(rng, tier))
@@ -558,6 +563,8 @@ def relay_lens(obs):
 
 
 def coq_case(case, obs):
+    if case["k"] == "hand":
+        return None      # the upgrade hand-over (HttpLayer -> WebsocketLayer) is not modelled: oracle only
     if case["k"] == "frag":
         return (f"Frag {c_nat(case['fs'])} {clist([c_nat(l) for l in case['lens']], 'nat')} {cbool(case['text'])} "
                 f"{cbytes(unhx(case['content']))} {clist([c_ev(e) for e in obs['out']], 'wsevent')}")
@@ -695,6 +702,8 @@ def _true_msgs(case, fc):
 def oracle(case, obs):
     if case["k"] == "frag":
         return oracle_frag(case, obs)
+    if case["k"] == "hand":
+        return oracle_hand(case, obs)
     v = []
 
     def add(key, what):
@@ -854,6 +863,8 @@ def oracle(case, obs):
 
 
 def nontrivial(case, obs):
+    if case["k"] == "hand":
+        return bool(obs["buffered"]["c"] or obs["buffered"]["s"])
     if case["k"] == "frag":
         return len(obs["out"]) >= 2
     n, run = 0, 0
@@ -867,6 +878,19 @@ def nontrivial(case, obs):
 
 
 def classify(case, obs):
+    if case["k"] == "hand":
+        t = ["handover", "handover-" + case["mode"]]
+        for side, name in (("s", "server-coalesced-with-101"), ("c", "client-frames-before-101")):
+            b = obs["buffered"][side]
+            if b:
+                t.append("handover-" + name)
+                if unhx(b)[-1:] in (b"\r", b"\n"):
+                    t.append("handover-buffer-ends-in-crlf")
+                if unhx(b)[:1] in (b"\r", b"\n"):
+                    t.append("handover-buffer-starts-with-crlf")
+        if any(unhx(x)[-1:] in (b"\r", b"\n") for side in ("c", "s") for x in obs["segments"][side]):
+            t.append("handover-segment-ends-in-crlf")
+        return t
     if case["k"] == "frag":
         same = len(unhx(case["content"])) == sum(case["lens"])
         return ["frag", "frag-text" if case["text"] else "frag-binary", "reuse-lengths" if same else "rechunk",
@@ -897,3 +921,210 @@ def classify(case, obs):
     if obs["crash"]:
         t.append("crash")
     return t
+
+
+
+# ------------------------------------------------------------------ upgrade hand-over (HttpLayer -> WebsocketLayer), oracle only
+# The bytes a peer sent right behind the HTTP/1 handshake sit in the Http1Connection buffer when the connection becomes
+# a pipe (Http1Connection.make_pipe); they must reach the WebsocketLayer unchanged.
+H_REQ = {"transparent": b"GET /chat HTTP/1.1\r\nHost: example.com\r\n",
+         "regular": b"GET http://example.com/chat HTTP/1.1\r\nHost: example.com\r\n"}
+H_UP = b"Connection: upgrade\r\nUpgrade: websocket\r\nSec-WebSocket-Version: 13\r\n\r\n"
+H_RESP = b"HTTP/1.1 101 Switching Protocols\r\nUpgrade: websocket\r\nConnection: Upgrade\r\n\r\n"
+NL_TOK = [b"\n", b"\r", b"\r\n", b"\n\n", b"a", b"line", b"{\"k\":1}", b"\x00", b"\xff", b" ", b"\r\r\n"]
+
+
+def h_frame(fc, opcode, fin, payload, mask):
+    b0 = (0x80 if fin else 0) | opcode
+    n = len(payload)
+    ln = bytes([n]) if n < 126 else bytes([126, n >> 8, n & 255])
+    if not fc:
+        return bytes([b0]) + ln + payload
+    m = unhx(mask)
+    return bytes([b0, 0x80 | ln[0]]) + ln[1:] + m + bytes(x ^ m[i % 4] for i, x in enumerate(payload))
+
+
+def h_stream(case, fc):
+    """wire bytes of one side and the messages they carry"""
+    wire, msgs = b"", []
+    for m in case["c" if fc else "s"]:
+        content = unhx(m["content"])
+        pts = m["cuts"]
+        last = 0
+        for i, p in enumerate(pts + [len(content)]):
+            wire += h_frame(fc, (1 if m["text"] else 2) if i == 0 else 0, i == len(pts), content[last:p], m.get("mask", "00000000"))
+            last = p
+        msgs.append([bool(m["text"]), hx(content)])
+    return wire, msgs
+
+
+def h_segments(wire, cuts):
+    pts = sorted({c for c in cuts if 0 < c < len(wire)})
+    return [wire[a:b] for a, b in zip([0] + pts, pts + [len(wire)])]
+
+
+def g_nl_content(rng, is_text):
+    parts = [rng.choice(NL_TOK) for _ in range(rng.randint(1, 8))]
+    if is_text:
+        parts = [x for x in parts if x not in (b"\x00", b"\xff")] or [b"\n"]
+        if rng.chance(0.3):
+            parts.append(rng.choice(TOK).encode())
+    if rng.chance(0.6):
+        parts.append(rng.choice([b"\n", b"\r", b"\r\n"]))
+    return b"".join(parts)
+
+
+def gen_handover(rng, tier):
+    case = {"k": "hand", "mode": "regular" if rng.chance(0.4) else "transparent", "c": [], "s": []}
+    for side in ("c", "s"):
+        for _ in range(rng.randint(0 if side == "c" else 1, 3)):
+            is_text = rng.chance(0.6)
+            content = g_nl_content(rng, is_text)
+            pts = sorted(rng.randint(0, len(content)) for _ in range(_w(rng, [(0, 0.6), (1, 0.3), (2, 0.1)])))
+            if is_text:   # keep text frame cuts on ASCII boundaries (content is ASCII apart from one trailing token)
+                pts = [p for p in pts if p == len(content) or (content[p] & 0xC0) != 0x80]
+            m = {"text": is_text, "content": hx(content), "cuts": pts}
+            if side == "c":
+                m["mask"] = "00000000" if rng.chance(0.6) else hx(rng.bytes(4))
+            case[side].append(m)
+    for side in ("c", "s"):
+        wire, _ = h_stream(case, side == "c")
+        nl = [i + 1 for i, b in enumerate(wire) if b in (10, 13)]     # cut right behind a CR or LF byte
+        cuts = []
+        for _ in range(rng.randint(0, 3)):
+            cuts.append(rng.choice(nl) if nl and rng.chance(0.7) else rng.randint(0, max(1, len(wire))))
+        case[side + "cuts"] = sorted(set(cuts))
+    # how many segments of each side travel with / right behind the handshake (before the 101 is relayed)
+    case["s_with_101"] = _w(rng, [(0, 0.15), (1, 0.6), (2, 0.25)])
+    case["c_before_101"] = _w(rng, [(0, 0.4), (1, 0.4), (2, 0.2)])
+    case["c_glued"] = rng.chance(0.5)     # first early client segment in the same read as the request head
+    case["order"] = [rng.below(2) for _ in range(12)]
+    return case
+
+
+def run_handover(case):
+    from mitmproxy.proxy.layers import http as httpl
+    opts = options.Options()
+    Proxyserver().load(opts)
+    ctx = context.Context(connection.Client(peername=("client", 1234), sockname=("127.0.0.1", 8080),
+                                            timestamp_start=1605699329, state=connection.ConnectionState.OPEN), opts)
+    regular = case["mode"] == "regular"
+    if not regular:
+        ctx.server.address = ("example.com", 80)
+        ctx.server.state = connection.ConnectionState.OPEN
+    top = httpl.HttpLayer(ctx, httpl.HTTPMode.regular if regular else httpl.HTTPMode.transparent)
+    srv = [None if regular else ctx.server]
+    sent = {"c": bytearray(), "s": bytearray()}
+    flows, hooks, crash, other = [], [], [None], []
+
+    def feed(ev):
+        pending = [ev]
+        while pending and not crash[0]:
+            e = pending.pop(0)
+            try:
+                for c in top.handle_event(e):
+                    if isinstance(c, commands.SendData):
+                        sent["c" if c.connection is ctx.client else "s"] += c.data
+                    elif isinstance(c, commands.OpenConnection):
+                        srv[0] = c.connection
+                        c.connection.state = connection.ConnectionState.OPEN
+                        pending.append(events.OpenConnectionCompleted(c, None))
+                    elif isinstance(c, commands.StartHook):
+                        hooks.append(type(c).__name__)
+                        f = getattr(c, "flow", None)
+                        if f is not None and f not in flows:
+                            flows.append(f)
+                        pending.append(events.HookCompleted(c))
+                    elif isinstance(c, commands.CloseConnection):
+                        other.append("close-" + ("c" if c.connection is ctx.client else "s"))
+            except Exception as ex:
+                crash[0] = _exc_kind(ex)
+
+    cwire, cmsgs = h_stream(case, True)
+    swire, smsgs = h_stream(case, False)
+    csegs, ssegs = h_segments(cwire, case["ccuts"]), h_segments(swire, case["scuts"])
+    nce, nsw = min(case["c_before_101"], len(csegs)), min(case["s_with_101"], len(ssegs))
+    early_c, early_s = csegs[:nce], ssegs[:nsw]
+    feed(events.Start())
+    req = H_REQ[case["mode"]] + H_UP
+    if early_c and case["c_glued"]:
+        feed(events.DataReceived(ctx.client, req + early_c[0]))
+        rest_early = early_c[1:]
+    else:
+        feed(events.DataReceived(ctx.client, req))
+        rest_early = early_c
+    for seg in rest_early:
+        feed(events.DataReceived(ctx.client, seg))
+    if srv[0] is None:
+        return {"harness": "no server connection", "crash": crash[0]}
+    feed(events.DataReceived(srv[0], H_RESP + b"".join(early_s[:1])))
+    for seg in early_s[1:]:
+        feed(events.DataReceived(srv[0], seg))
+    rc, rs = csegs[nce:], ssegs[nsw:]
+    i = 0
+    while rc or rs:
+        pick_c = bool(rc) and (not rs or case["order"][i % len(case["order"])] == 1)
+        i += 1
+        if pick_c:
+            feed(events.DataReceived(ctx.client, rc.pop(0)))
+        else:
+            feed(events.DataReceived(srv[0], rs.pop(0)))
+
+    def decode(data, head_prefix, ctype):
+        head, sep, rest = bytes(data).partition(b"\r\n\r\n")
+        if not sep or not head.startswith(head_prefix):
+            return None
+        p = wsproto.Connection(ctype)
+        try:
+            p.receive_data(rest)
+            return [_ev(e, p.state.name) for e in p.events()]
+        except Exception as ex:
+            return [["other", type(ex).__name__]]
+    flow = flows[0] if flows else None
+    w = getattr(flow, "websocket", None)
+    return {"crash": crash[0], "hooks": hooks, "other": other,
+            "sent": {"c": cmsgs, "s": smsgs},
+            "buffered": {"c": hx(b"".join(early_c)), "s": hx(b"".join(early_s[:1]))},
+            "segments": {"c": [hx(x) for x in csegs], "s": [hx(x) for x in ssegs]},
+            "peer": {"c": decode(sent["c"], b"HTTP/1.1 101", wsproto.ConnectionType.CLIENT),
+                     "s": decode(sent["s"], b"GET /chat HTTP/1.1", wsproto.ConnectionType.SERVER)},
+            "messages": None if w is None else
+            [[m.is_text, bool(m.from_client), hx(m.content), bool(m.dropped), bool(m.injected)] for m in w.messages],
+            "closed": None if w is None or w.closed_by_client is None else [bool(w.closed_by_client), int(w.close_code)]}
+
+
+def oracle_hand(case, obs):
+    v = []
+
+    def add(key, what):
+        v.append({"key": key, "what": what})
+    if obs.get("harness"):
+        add("handover-harness", obs["harness"])
+        return v
+    if obs["crash"]:
+        add("layer-exception", f"HttpLayer/WebsocketLayer raised {obs['crash']} during the upgrade hand-over")
+    if obs["messages"] is None:
+        add("handover-no-websocket", "the flow never became a WebSocket flow")
+        return v
+    for X, Y in (("c", "s"), ("s", "c")):           # X receives what Y sent
+        who, src = ("client", "server") if X == "c" else ("server", "client")
+        want = [[m[0], m[1]] for m in obs["sent"][Y]]
+        rec = [[m[0], m[2]] for m in obs["messages"] if m[1] == (Y == "c") and not m[4]]
+        buf = obs["buffered"][Y]
+        ctx_ = (f"mode={case['mode']}, {len(unhx(buf))} bytes of the {src} buffered at the upgrade"
+                + (" ending in CR/LF" if unhx(buf)[-1:] in (b"\r", b"\n") else ""))
+        if rec != want:
+            add("handover-recorded-mismatch", f"{src} sent {len(want)} messages, flow recorded {len(rec)} equal={sum(a == b for a, b in zip(rec, want))} ({ctx_})")
+        seen = obs["peer"][X]
+        if seen is None:
+            add("handover-delivered-mismatch", f"{who} did not receive the relayed handshake ({ctx_})")
+            continue
+        got, unfinished = _reasm(seen)
+        got = [[g[0], hx(g[1])] for g in got]
+        if got != want or unfinished:
+            add("handover-delivered-mismatch", f"{who} received {len(got)} messages for {len(want)} sent by the {src} ({ctx_})")
+        if any(e[0] in ("close", "other") for e in seen):
+            add("handover-unexpected-close", f"{who} received {[e for e in seen if e[0] in ('close', 'other')][:1]} although nobody closed ({ctx_})")
+    if obs["closed"] is not None:
+        add("handover-unexpected-close", f"flow closed with {obs['closed']} although nobody closed")
+    return v
